@@ -1407,7 +1407,7 @@ func apiCheckParse(t *testing.T, path string, cfgs ...Config) {
 	}
 }
 
-func apiCheckParseTotal(t *testing.T) {
+func apiParseCorpus() ([]string, Config) {
 	operands := []string{`1`, `-1.5e3`, `'s'`, `"s"`, `true`, `null`, `@.a`, `$.a`, `@`, `$`, `@.a.f()`, `$..a`, `@.*`, `@.a.g()`, `@.g().g()`, `@.a[0]`, `$.a[0:1]`, `@['a','b']`, `1e999`, `0x1`, `+1`}
 	ops := []string{`==`, `!=`, `<`, `<=`, `>`, `>=`, `=~`}
 	cfg := apiConfig(false)
@@ -1450,6 +1450,11 @@ func apiCheckParseTotal(t *testing.T) {
 			paths = append(paths, string(m))
 		}
 	}
+	return paths, cfg
+}
+
+func apiCheckParseTotal(t *testing.T) {
+	paths, cfg := apiParseCorpus()
 	for _, p := range paths {
 		apiCheckParse(t, p, cfg)
 		if t.Failed() {
@@ -1457,6 +1462,392 @@ func apiCheckParseTotal(t *testing.T) {
 		}
 		apiCheckParse(t, p)
 		if t.Failed() {
+			return
+		}
+	}
+}
+
+// C17 (bounded): the accepted language and the error position against an interpreter of jsonpath.peg itself.
+// pegNode is a parsing expression; the grammar file is read from the package directory.
+type pegNode struct {
+	kind string // seq, alt, star, plus, opt, not, and, lit, class, any, ref, eps
+	kids []*pegNode
+	text string
+	neg  bool
+	set  [][2]rune
+}
+
+type pegGrammar struct {
+	rules map[string]*pegNode
+	src   []rune
+	pos   int
+}
+
+func (g *pegGrammar) skip() {
+	for g.pos < len(g.src) {
+		c := g.src[g.pos]
+		if c == ' ' || c == '\t' || c == '\n' || c == '\r' {
+			g.pos++
+		} else if c == '#' {
+			for g.pos < len(g.src) && g.src[g.pos] != '\n' {
+				g.pos++
+			}
+		} else {
+			break
+		}
+	}
+}
+
+func (g *pegGrammar) ident() string {
+	st := g.pos
+	for g.pos < len(g.src) && (g.src[g.pos] == '_' || g.src[g.pos] >= 'a' && g.src[g.pos] <= 'z' || g.src[g.pos] >= 'A' && g.src[g.pos] <= 'Z' || g.pos > st && g.src[g.pos] >= '0' && g.src[g.pos] <= '9') {
+		g.pos++
+	}
+	return string(g.src[st:g.pos])
+}
+
+// one possibly escaped character of a literal or class
+func (g *pegGrammar) char() rune {
+	c := g.src[g.pos]
+	g.pos++
+	if c != '\\' {
+		return c
+	}
+	e := g.src[g.pos]
+	g.pos++
+	switch e {
+	case 'n':
+		return '\n'
+	case 't':
+		return '\t'
+	case 'r':
+		return '\r'
+	case '0':
+		if g.pos < len(g.src) && g.src[g.pos] == 'x' {
+			g.pos++
+			v := 0
+			for k := 0; k < 2; k++ {
+				d := g.src[g.pos]
+				g.pos++
+				switch {
+				case d >= '0' && d <= '9':
+					v = v*16 + int(d-'0')
+				case d >= 'a' && d <= 'f':
+					v = v*16 + int(d-'a') + 10
+				case d >= 'A' && d <= 'F':
+					v = v*16 + int(d-'A') + 10
+				}
+			}
+			return rune(v)
+		}
+		return 0
+	}
+	return e
+}
+
+func (g *pegGrammar) isRuleStart() bool {
+	save := g.pos
+	defer func() { g.pos = save }()
+	if g.ident() == "" {
+		return false
+	}
+	g.skip()
+	return g.pos+1 < len(g.src) && g.src[g.pos] == '<' && g.src[g.pos+1] == '-'
+}
+
+func (g *pegGrammar) alt() *pegNode {
+	n := &pegNode{kind: "alt"}
+	n.kids = append(n.kids, g.seq())
+	for {
+		g.skip()
+		if g.pos < len(g.src) && g.src[g.pos] == '/' {
+			g.pos++
+			n.kids = append(n.kids, g.seq())
+		} else {
+			break
+		}
+	}
+	if len(n.kids) == 1 {
+		return n.kids[0]
+	}
+	return n
+}
+
+func (g *pegGrammar) seq() *pegNode {
+	n := &pegNode{kind: "seq"}
+	for {
+		g.skip()
+		if g.pos >= len(g.src) || g.src[g.pos] == '/' || g.src[g.pos] == ')' || g.src[g.pos] == '>' || g.isRuleStart() {
+			break
+		}
+		n.kids = append(n.kids, g.prefix())
+	}
+	return n
+}
+
+func (g *pegGrammar) prefix() *pegNode {
+	g.skip()
+	switch g.src[g.pos] {
+	case '!':
+		g.pos++
+		return &pegNode{kind: "not", kids: []*pegNode{g.prefix()}}
+	case '&':
+		g.pos++
+		return &pegNode{kind: "and", kids: []*pegNode{g.prefix()}}
+	}
+	n := g.primary()
+	for {
+		// suffixes follow without a line break being significant, but ' *' after `space <- ' '` style is written with a space
+		save := g.pos
+		g.skip()
+		if g.pos < len(g.src) && (g.src[g.pos] == '*' || g.src[g.pos] == '+' || g.src[g.pos] == '?') && !(g.src[g.pos] == '*' && false) {
+			k := map[rune]string{'*': "star", '+': "plus", '?': "opt"}[g.src[g.pos]]
+			g.pos++
+			n = &pegNode{kind: k, kids: []*pegNode{n}}
+		} else {
+			g.pos = save
+			break
+		}
+	}
+	return n
+}
+
+func (g *pegGrammar) primary() *pegNode {
+	g.skip()
+	c := g.src[g.pos]
+	switch {
+	case c == '(':
+		g.pos++
+		n := g.alt()
+		g.skip()
+		g.pos++ // )
+		return n
+	case c == '<':
+		g.pos++
+		n := g.alt()
+		g.skip()
+		g.pos++ // >
+		return &pegNode{kind: "cap", kids: []*pegNode{n}}
+	case c == '{':
+		depth := 0
+		for {
+			ch := g.src[g.pos]
+			g.pos++
+			if ch == '`' {
+				for g.src[g.pos] != '`' {
+					g.pos++
+				}
+				g.pos++
+			} else if ch == '{' {
+				depth++
+			} else if ch == '}' {
+				depth--
+				if depth == 0 {
+					break
+				}
+			}
+		}
+		return &pegNode{kind: "eps"}
+	case c == '\'' || c == '"':
+		g.pos++
+		var lit []rune
+		for g.src[g.pos] != c {
+			lit = append(lit, g.char())
+		}
+		g.pos++
+		return &pegNode{kind: "lit", text: string(lit)}
+	case c == '[':
+		g.pos++
+		n := &pegNode{kind: "class"}
+		if g.src[g.pos] == '^' {
+			n.neg = true
+			g.pos++
+		}
+		for g.src[g.pos] != ']' {
+			lo := g.char()
+			hi := lo
+			if g.src[g.pos] == '-' && g.src[g.pos+1] != ']' {
+				g.pos++
+				hi = g.char()
+			}
+			n.set = append(n.set, [2]rune{lo, hi})
+		}
+		g.pos++
+		return n
+	case c == '.':
+		g.pos++
+		return &pegNode{kind: "any"}
+	}
+	id := g.ident()
+	if id == "" {
+		panic(fmt.Sprintf("peg: unexpected %q at %d", string(c), g.pos))
+	}
+	return &pegNode{kind: "ref", text: id}
+}
+
+func pegLoad() (*pegGrammar, error) {
+	data, err := os.ReadFile("jsonpath.peg")
+	if err != nil {
+		return nil, err
+	}
+	src := string(data)
+	// skip the header up to the first rule
+	k := strings.Index(src, "expression <-")
+	if k < 0 {
+		return nil, fmt.Errorf("no start rule")
+	}
+	g := &pegGrammar{rules: map[string]*pegNode{}, src: []rune(src[k:])}
+	for {
+		g.skip()
+		if g.pos >= len(g.src) {
+			break
+		}
+		name := g.ident()
+		g.skip()
+		g.pos += 2 // <-
+		g.rules[name] = g.alt()
+	}
+	return g, nil
+}
+
+// pegMatch returns the end position of expression n matched at pos, or -1.  capBegin records the start of the last
+// capture entered (the `begin` of an action).
+type pegRun struct {
+	g    *pegGrammar
+	in   []rune
+	memo map[[2]interface{}]int
+}
+
+func (r *pegRun) match(n *pegNode, pos int) int {
+	switch n.kind {
+	case "eps":
+		return pos
+	case "seq":
+		for _, k := range n.kids {
+			if pos = r.match(k, pos); pos < 0 {
+				return -1
+			}
+		}
+		return pos
+	case "alt":
+		for _, k := range n.kids {
+			if e := r.match(k, pos); e >= 0 {
+				return e
+			}
+		}
+		return -1
+	case "star", "plus":
+		cnt := 0
+		for {
+			e := r.match(n.kids[0], pos)
+			if e < 0 || e == pos && cnt > 0 {
+				break
+			}
+			pos = e
+			cnt++
+		}
+		if n.kind == "plus" && cnt == 0 {
+			return -1
+		}
+		return pos
+	case "opt":
+		if e := r.match(n.kids[0], pos); e >= 0 {
+			return e
+		}
+		return pos
+	case "not":
+		if r.match(n.kids[0], pos) >= 0 {
+			return -1
+		}
+		return pos
+	case "and":
+		if r.match(n.kids[0], pos) >= 0 {
+			return pos
+		}
+		return -1
+	case "cap":
+		return r.match(n.kids[0], pos)
+	case "lit":
+		lit := []rune(n.text)
+		if pos+len(lit) > len(r.in) {
+			return -1
+		}
+		for i, c := range lit {
+			if r.in[pos+i] != c {
+				return -1
+			}
+		}
+		return pos + len(lit)
+	case "class":
+		if pos >= len(r.in) {
+			return -1
+		}
+		in := false
+		for _, rg := range n.set {
+			if r.in[pos] >= rg[0] && r.in[pos] <= rg[1] {
+				in = true
+			}
+		}
+		if in != n.neg {
+			return pos + 1
+		}
+		return -1
+	case "any":
+		if pos < len(r.in) {
+			return pos + 1
+		}
+		return -1
+	case "ref":
+		key := [2]interface{}{n.text, pos}
+		if e, ok := r.memo[key]; ok {
+			return e
+		}
+		rule := r.g.rules[n.text]
+		if rule == nil {
+			panic("peg: unknown rule " + n.text)
+		}
+		e := r.match(rule, pos)
+		r.memo[key] = e
+		return e
+	}
+	panic("peg: kind " + n.kind)
+}
+
+func apiCheckGrammar(t *testing.T) {
+	g, err := pegLoad()
+	if err != nil {
+		t.Errorf("REPRODUCED: cannot read the published grammar: %v", err)
+		return
+	}
+	paths, cfg := apiParseCorpus()
+	for _, p := range paths {
+		in := []rune(p)
+		run := &pegRun{g: g, in: in, memo: map[[2]interface{}]int{}}
+		whole := run.match(&pegNode{kind: "seq", kids: []*pegNode{{kind: "ref", text: "jsonpath"}, {kind: "ref", text: "END"}}}, 0) >= 0
+		var perr error
+		func() {
+			defer func() {
+				if r := recover(); r != nil {
+					perr = fmt.Errorf("panic: %v", r)
+				}
+			}()
+			apiCount()
+			_, perr = Parse(p, cfg)
+		}()
+		se, isSyntax := perr.(ErrorInvalidSyntax)
+		unrecognised := isSyntax && strings.Contains(se.Error(), "reason=unrecognized input")
+		if whole {
+			if unrecognised {
+				t.Errorf("REPRODUCED: %q is derivable from jsonpath.peg but Parse rejects it as unrecognized input: %v", p, perr)
+				return
+			}
+			continue
+		}
+		// not derivable: the error names the end of the longest prefix `jsonpath?` accepts, and `near` is the rest
+		begin := run.match(&pegNode{kind: "opt", kids: []*pegNode{{kind: "ref", text: "jsonpath"}}}, 0)
+		want := fmt.Sprintf("invalid syntax (position=%d, reason=unrecognized input, near=%s)", begin, string(in[begin:]))
+		if !isSyntax || perr.Error() != want {
+			t.Errorf("REPRODUCED: %q is not derivable from jsonpath.peg: Parse gives %v, expected %s", p, perr, want)
 			return
 		}
 	}
@@ -1582,6 +1973,8 @@ func TestVerifReplay(t *testing.T) {
 		}
 	case "C02":
 		apiCheckParseTotal(t)
+	case "C17":
+		apiCheckGrammar(t)
 	case "C19":
 		apiCheckParseIndependent(t)
 	case "C01", "C07":
